@@ -609,33 +609,41 @@ impl Relations {
 
     /// Insert a new entry at the given index
     pub fn insert(&mut self, idx: usize, entry: Entry) {
-        let is_empty = !self.0.children_with_tokens().any(|n| n.kind() == COMMA);
         let (position, new_children) = if let Some(current_entry) = self.entries().nth(idx) {
-            let to_insert: Vec<NodeOrToken<GreenNode, GreenToken>> = if idx == 0 && is_empty {
-                vec![entry.0.green().into()]
-            } else {
-                vec![
-                    entry.0.green().into(),
-                    NodeOrToken::Token(GreenToken::new(COMMA.into(), ",")),
-                    NodeOrToken::Token(GreenToken::new(WHITESPACE.into(), " ")),
-                ]
-            };
+            // In front of an existing entry: always followed by a separator
+            let to_insert: Vec<NodeOrToken<GreenNode, GreenToken>> = vec![
+                entry.0.green().into(),
+                NodeOrToken::Token(GreenToken::new(COMMA.into(), ",")),
+                NodeOrToken::Token(GreenToken::new(WHITESPACE.into(), " ")),
+            ];
 
             (current_entry.0.index(), to_insert)
         } else {
+            // At the end: a separator is needed unless there is nothing in front
+            // of the new entry or the field already ends in one
             let child_count = self.0.children_with_tokens().count();
-            (
-                child_count,
-                if idx == 0 {
-                    vec![entry.0.green().into()]
-                } else {
-                    vec![
-                        NodeOrToken::Token(GreenToken::new(COMMA.into(), ",")),
-                        NodeOrToken::Token(GreenToken::new(WHITESPACE.into(), " ")),
-                        entry.0.green().into(),
-                    ]
-                },
-            )
+            let last = self.0.children_with_tokens().last().map(|n| n.kind());
+            let last_significant = self
+                .0
+                .children_with_tokens()
+                .filter(|n| n.kind() != WHITESPACE && n.kind() != NEWLINE)
+                .last()
+                .map(|n| n.kind());
+            let mut to_insert: Vec<NodeOrToken<GreenNode, GreenToken>> = vec![];
+            match last_significant {
+                None => {}
+                Some(COMMA) => {
+                    if last == Some(COMMA) {
+                        to_insert.push(NodeOrToken::Token(GreenToken::new(WHITESPACE.into(), " ")));
+                    }
+                }
+                Some(_) => {
+                    to_insert.push(NodeOrToken::Token(GreenToken::new(COMMA.into(), ",")));
+                    to_insert.push(NodeOrToken::Token(GreenToken::new(WHITESPACE.into(), " ")));
+                }
+            }
+            to_insert.push(entry.0.green().into());
+            (child_count, to_insert)
         };
         // We can safely replace the root here since Relations is a root node
         self.0 = SyntaxNode::new_root_mut(
